@@ -380,7 +380,7 @@ func (k *core) rejectHelperOf(h *ssa.Function) *rejectHelper {
 			if e := litField(al, "err"); e != errV {
 				continue
 			}
-			if oc := litField(al, "oldConfig"); oc == nil || !isCallToFn(oc, k.view) {
+			if oc := litField(al, "oldConfig"); oc == nil || !k.isCurrentConfig(oc, 0) {
 				continue
 			}
 			nc := litField(al, "newConfig")
